@@ -35,15 +35,16 @@ def gen_case(seed):
 
     rnd = random.Random(seed)
     mode = rnd.choice(["complete", "complete", "complete", "fail", "cancel", "timeout"])
-    if mode == "complete" and rnd.random() < 0.2:
+    if mode == "complete" and rnd.random() < 0.3:
         # human in the loop: the run idles in wait_for_event (still in memory), the answers arrive from outside, and the
         # process dies after any tick persisted from then on
         from vf import idle_cases as ic
 
-        spec, keys = ic.gen_program(rnd, n=1)   # one item: the result does not depend on an order
+        # (half of them first wait for a quick confirmation nobody sends: a waiter TIMEOUT tick is part of the persisted history)
+        spec, keys = ic.gen_program(rnd, n=1, escalate=rnd.choice([None, 0.5, 1.0]))   # one item: the result does not depend on an order
         spec["sched_seed"] = seed
         spec["family"] = "det"
-        spec["hitl_sends"] = [{"at": 3.0 + 0.5 * i, "key": k} for i, k in enumerate(keys)]
+        spec["hitl_sends"] = [{"at": 8.0 + 0.5 * i, "key": k} for i, k in enumerate(keys)]   # after every wait (incl. the re-run after a quick wait timed out, under store latency) is registered
         if rnd.random() < 0.3:
             spec["store_latency"] = 0.05
         return {"seed": seed, "family": "det", "mode": mode, "spec": spec, "cancel_at": None}
@@ -170,6 +171,22 @@ def unpersisted_outputs(ticks):
                 if not follow:
                     missing.append(("failure_followup", uid_in))
     return missing
+
+
+def pending_waiter_timeouts(ticks):
+    """waiters registered WITH a timeout by a persisted step_result whose timeout tick (or deletion) is not in the persisted log:
+    their timer only lives in the dead process' wakeup heap (same mechanism as the open C14 finding 'timer lost on restart')"""
+    pend = {}
+    for t in ticks:
+        if t.get("type") == "step_result":
+            for r in t.get("result", []):
+                if r.get("type") == "add_waiter" and r.get("timeout") is not None:
+                    pend.setdefault(r.get("waiter_id"), True)
+                elif r.get("type") == "delete_waiter":
+                    pend.pop(r.get("waiter_id"), None)
+        elif t.get("type") == "waiter_timeout":
+            pend.pop(t.get("waiter_id"), None)
+    return sorted(str(w) for w in pend)
 
 
 def unpersisted_sends(ticks, p1_sends):
@@ -311,8 +328,12 @@ def check_point(case, k, ref, out, acc):
             acc.violation({"mech": "resumed_result_differs"}, f"crash after tick {k}: result {hres['result']} != uninterrupted {ref['h']['result']}", wit)
         return
     if hres["status"] == "running":
-        acc.violation({"mech": "resumed_handler_never_finishes", "unpersisted_step_consequence_at_crash": bool(missing), "crash_after": last},
-                      f"crash after persisted tick {k} ({last}): handler still running 300 virtual s after the restart (idle={hres['idle']}); "
+        wt = pending_waiter_timeouts(ticks)
+        if wt:
+            acc.hit("crash_with_waiter_timeout_pending")
+        acc.violation({"mech": "resumed_handler_never_finishes", "unpersisted_step_consequence_at_crash": bool(missing), "crash_after": last,
+                       **({"waiter_timeout_pending_at_crash": True} if wt else {})},
+                      f"crash after persisted tick {k} ({last}): handler still running 300 virtual s after the restart (idle={hres['idle']}); waiter timeouts pending at the crash: {wt}; "
                       f"consequences of persisted step results that were not persisted (output add_event / retry / handler hand-off): {missing}", wit)
     else:
         acc.violation({"mech": "resumed_handler_wrong_status", "status": hres["status"]},
